@@ -32,7 +32,7 @@ CHECKS = {
     'C17': dict(
         category='model_checking', design_ref='DESIGN.md section 3, C17',
         technique='exhaustive enumeration of job sequences executed inside one interpreter (process-wide counters and logger state leak between jobs) against baselines computed in separate fresh processes',
-        text='All pairs over 21 jobs (models, blocks, a block that does not converge, re-solves, re-parses, a second Model() created mid-build, shared function names, in-place exclusion list) x 3 diagnostics settings and all triples (thorough: 4-sequences) over a reduced alphabet of 8 jobs; each job\'s complete TimeSeries must equal its fresh-process baseline; re-parsed solvers report exactly the new block.',
+        text='All pairs over 23 jobs (models, blocks, a plain re-solve after a steady-state solve, a block that does not converge, re-solves, re-parses, a second Model() created mid-build, shared function names, in-place exclusion list) x 3 diagnostics settings and all triples (thorough: 4-sequences) over a reduced alphabet of 8 jobs; each job\'s complete TimeSeries must equal its fresh-process baseline; re-parsed solvers report exactly the new block.',
         note='Two baseline interpreters per job are diffed first. Worker processes run many sequences back to back, which only lengthens the histories.'),
     'C19': dict(
         category='exploration', design_ref='DESIGN.md section 3, C19',
